@@ -3,7 +3,7 @@
    state-passing style), Model/FlowGraph.v (memo-free meaning). *)
 From Coq Require Import List Bool Arith NArith PArith FMapPositive.
 Import ListNotations.
-From Supp Require Import Model.Layout Model.FlowGraph Model.Memo Proofs.MemoProofs.
+From Supp Require Import Model.Layout Model.FlowGraph Model.Memo Proofs.MemoProofs Proofs.PathSem Proofs.MemoFull.
 
 (* F1 witness  `for x in xs: / if c: w = 2 / else: pass / print(w) / w = 1`
    flows: 0 top, 1 for (x; parents top and the loop back edge to 4), 2 if (w = 2), 3 else,
@@ -22,23 +22,59 @@ Definition f1_keys : keymap :=
 Definition f1_read_c : query := (1, (2%N, 7%N), 3%positive).
 Definition f1_read_w : query := (4, (6%N, 10%N), 2%positive).
 
-(* FULL STATEMENT (the property on the model; NOT proved in full generality here):
+(* THE THEOREM.  For every flow graph g with scope levels lvs that passes the decidable
+   well-formedness check graph_wfb (evaluated in Coq on every graph the harness dumps from supp:
+   parents and loop targets stay in their scope level, a Direct parent was created before its
+   child, the chain of a scope-entry flow points to outer levels, a flow with parents has a Direct
+   parent, indices in range) - any size, any loop nesting -, every list h of earlier queries
+   and every query q: if the memoised evaluation (Model/Memo.v = loop_memo of scope.py, /repo HEAD)
+   answers a after the history h, then the memo-free evaluation (Model/FlowGraph.v) is defined for
+   every fuel from some n on and its answer is the same: both KeyError, or rows with the same set
+   of alternatives.  No hypothesis on the memo state, the history or the fuel of the memoised run.
 
-     forall g km fuel h q st a st',
-       run_history false g km fuel init_state h = Some st ->
-       query_memo g km fuel st q = Some (a, st') ->
-       exists n, forall m, n <= m -> query_pure g km m q = Some a.
+   The UNCONDITIONAL statement (no graph_wfb) is not proved and is not expected to hold for
+   arbitrary chains (a scope-entry rule pointing into an inner loop is not monotone); graph_wfb is
+   checked, not assumed: harness/props/c04.py reports any dumped graph that fails it.
 
-   i.e. for every flow graph (any size, any loop nesting), every list of earlier queries h and every
-   query q, the memoised answer is the memo-free answer (for every sufficiently large fuel).
-   What is proved below: the statement for every graph WITHOUT loop parents (C04_memo_transparent_partial,
-   any size, any history, scope entry rules included), fuel monotonicity of the memo-free meaning,
-   and the refutation of the old policy.  For graphs with loops the statement is established only
-   by the correspondence histories of harness/props/c04.py (see notes/C04.md, which also records
-   why the per-layer invariant planned in DESIGN.md 5/C04 is not the right one for nested loops). *)
+   Proof (Proofs/PathSem.v, Proofs/MemoFull.v): walks in the graph per name; the memo-free value
+   under a resolving set R is exactly the set of alternatives reached by walks avoiding R (cycle
+   cutting; the _closes rule is what makes the evaluation complete for simple walks); every value
+   the memoised evaluation returns or stores with dependency set D lies between the simple walks
+   avoiding D and all walks; dependencies are loops being resolved, so a top-level answer has D = [].
+   NOTE: the invariant planned in DESIGN.md 5/C04 (stored value = memo-free value under the layer's
+   resolving set) is false: a stored value may be strictly larger (see notes/C04.md). *)
+Theorem C04_memo_transparent : forall g lvs km fuel h q st a st',
+  graph_wfb g lvs = true ->
+  run_history false g km fuel init_state h = Some st ->
+  query_memo g km fuel st q = Some (a, st') ->
+  exists n, forall m, n <= m -> exists a',
+    query_pure g km m q = Some a' /\
+    match a, a' with
+    | Some r, Some r' => forall x, In x r <-> In x r'
+    | None, None => True
+    | _, _ => False
+    end.
+Proof.
+  intros g lvs km fuel h q st a st' Hwf Hh Hq.
+  destruct (memo_transparent_full g lvs km fuel h q st a st' Hwf Hh Hq) as [n Hn].
+  exists n. intros m Hm. destruct (Hn m Hm) as [a' [Ha' Hr]]. exists a'. split; [exact Ha'|].
+  destruct a, a'; simpl in Hr; auto.
+Qed.
+Print Assumptions C04_memo_transparent.
 
-(* Memo transparency on graphs without loop parents: whatever was asked before, the memoised
-   answer is the memo-free answer at every sufficiently large fuel. *)
+(* the memo-free evaluation is total on well-formed graphs: some fuel suffices for every flow and
+   every resolving set (so "out of fuel" never hides an answer) *)
+Theorem C04_pure_total : forall g lvs km R f fl,
+  graph_wfb g lvs = true -> nth_error (flows g) f = Some fl ->
+  exists fuel e, names_pure (norm km) g fuel R f = Some e.
+Proof.
+  intros g lvs km R f fl Hwf Hf.
+  exact (names_pure_total (norm km) g (lvf lvs) (graph_wfb_sound g lvs Hwf) R f fl Hf).
+Qed.
+Print Assumptions C04_pure_total.
+
+(* Corollary-style special case kept from the first round (proved independently, with equality of
+   rows as lists): graphs without loops. *)
 Theorem C04_memo_transparent_partial : forall g km fuel h q st a st',
   no_loopsb g = true ->
   run_history false g km fuel init_state h = Some st ->
@@ -65,6 +101,15 @@ Example C04_partial_example :
   exists st, (run_history false g f1_keys 20 init_state [(1, (3%N, 0%N), 2%positive); (3, (9%N, 0%N), 2%positive)] = Some st) /\
   (option_map fst (query_memo g f1_keys 20 st (3, (6%N, 10%N), 2%positive)) = Some (Some [AUndef; ADef 2%positive])).
 Proof. split; [reflexivity|]. eexists. split; vm_compute; reflexivity. Qed.
+
+(* Non-vacuity of C04_memo_transparent: the F1 witness graph (one loop) is well-formed, and the
+   theorem applies to the history "read of c, then read of w". *)
+Example C04_full_example :
+  graph_wfb f1_graph [1; 1; 1; 1; 1; 1; 1] = true /\
+  exists st a st', run_history false f1_graph f1_keys 20 init_state [f1_read_c] = Some st /\
+                   query_memo f1_graph f1_keys 20 st f1_read_w = Some (a, st') /\
+                   a = Some [AUndef; ADef 2%positive; ADef 3%positive].
+Proof. split; [reflexivity|]. do 3 eexists. split; [vm_compute; reflexivity|]. split; vm_compute; reflexivity. Qed.
 
 (* The policy of the tree before commit 346db57 (cached_property) is refuted: after lint has asked
    for `c` (inside the loop header flow), the read of `w` no longer sees the loop-carried `w = 1`. *)
